@@ -1,5 +1,5 @@
 SPECIFICATION Spec
 CONSTANTS
-  Fuel = 40
+  Fuel = 400
   Dev = {}
 CHECK_DEADLOCK FALSE
